@@ -37,6 +37,30 @@ def documented_result(should_fail, wkind, rc):
     return base
 
 
+# TAP streams whose verdict is known by construction (documented in Unit-tests.md / the TAP protocol):
+TAP_KINDS = {
+    'pass': '1..1\nok 1\n', 'fail': '1..1\nnot ok 1\n',
+    'allskip': '1..2\nok 1 # SKIP not here\nok 2 # SKIP nor here\n', 'planskip': '1..0 # SKIP nothing to do\n', 'empty': '',
+}
+TAP_KIND_OF = {v: k for k, v in TAP_KINDS.items()}
+
+
+def documented_tap_result(kind, should_fail, wkind, rc):
+    """A protocol:'tap' test: the stream gives OK / FAIL / SKIP (only skipped subtests, a `1..0 # SKIP` plan or no TAP
+    line at all); a test program that exits with a non-zero status (or dies from a signal) is an ERROR unless the
+    stream already made it FAIL; should_fail inverts OK / FAIL only; TIMEOUT when the limit passes."""
+    if wkind == 't':
+        return 'TIMEOUT'
+    if wkind == 'c':
+        return 'INTERRUPT'
+    base = {'pass': 'OK', 'fail': 'FAIL', 'allskip': 'SKIP', 'planskip': 'SKIP', 'empty': 'SKIP'}[kind]
+    if rc != 0 and base != 'FAIL':
+        return 'ERROR'
+    if should_fail and base in ('OK', 'FAIL'):
+        return 'UNEXPECTEDPASS' if base == 'OK' else 'EXPECTEDFAIL'
+    return base
+
+
 def tally_clauses(results, counts, exit_status):
     """results: list of result names; counts: the seven printed totals in SUMMARY_LABELS order
     (None = line absent, allowed only for a zero count other than Ok/Fail); exit_status: int.
